@@ -3,8 +3,8 @@
 import ast
 
 from ..engine import rule
-from ..flow import PRUNE, Violation, explore, implied_atoms, path_ends, \
-    path_is, prov_has, provenance, raising_node, store_value
+from ..flow import PRUNE, Violation, cmp_sides, explore, implied_atoms, \
+    path_ends, path_is, prov_has, provenance, raising_node, store_value
 from ..model import dotted, walk_local
 from ..twopc import FS
 
@@ -900,3 +900,55 @@ def r10(R):
                 'un-creation: ' + ' <- '.join(chain))
     R.require(n >= 1, 'the record iterator no longer walks backpointer '
               'chains')
+
+
+# ------------------------------------------------------------------ C17.R11
+@rule('C17.R11', 'the walk along a backpointer chain terminates on a '
+      'damaged file: each step is checked to move strictly backwards',
+      min_instances=1)
+def r11(R):
+    cls = R.prog.cls('ZODB.FileStorage.format.FileStorageFormatter')
+    f = R.method(cls, '_loadBack_impl')
+    g, b, F = R.cfg(f, cls, max_depth=0)
+    R.instance('FileStorageFormatter._loadBack_impl')
+    ps = [p for p in f.params if p != 'self']
+    cur = ps[1]
+    seen = [0]
+
+    def edge(node, st, lab, tgt):
+        if node.kind == 'loophead':
+            return False
+        if node.kind == 'test' and lab in ('T', 'F'):
+            for e, truth in implied_atoms(node.ast, lab):
+                for l, op, r in cmp_sides(e):
+                    if isinstance(l, ast.Attribute) and l.attr == 'back' \
+                            and isinstance(r, ast.Name) and r.id == cur:
+                        earlier = (op is ast.Lt and truth) or (
+                            op is ast.GtE and not truth)
+                        if earlier:
+                            return True
+        return st
+
+    def at(node, st):
+        a = node.ast
+        if node.kind == 'stmt' and isinstance(a, ast.Assign) and any(
+                isinstance(t, ast.Name) and t.id == cur for t in a.targets) \
+                and isinstance(a.value, ast.Attribute) and \
+                a.value.attr == 'back':
+            seen[0] += 1
+            if not st:
+                return Violation(
+                    'the chain walk steps to `%s` without having found it '
+                    'EARLIER in the file than the record it came from: on a '
+                    'damaged file (a backpointer that points at its own '
+                    'record, or forwards into a cycle) the walk never ends, '
+                    'and with it fsrecover, the storage iterator and '
+                    'copyTransactionsFrom' % ast.unparse(a.value))
+        return st
+
+    vs, stats = explore(g, False, at=at, edge=edge)
+    R.count(stats)
+    R.require(seen[0] or vs, '_loadBack_impl no longer steps along the '
+              'chain')
+    for v in vs:
+        R.violation(v.node, v.message, g, v.path)
